@@ -1150,7 +1150,9 @@ void Handler::helpArgument( const string& help_arg_key, bool full)
    {
       mOutput << "Argument '" << key << "', usage:" << std::endl;
 
-      auto const  desc = mDescription.getArgDesc( key);
+      // the key may be an abbreviation of the long argument: look the
+      // description up by the key of the argument that was found
+      auto const  desc = mDescription.getArgDesc( p_arg_hdl->key());
       format::TextBlock  tb( 3, 80, true);
       tb.format(  mOutput, desc);
 
